@@ -1,6 +1,7 @@
 """C18  Fractional values keep their numeric meaning."""
 import ast
 
+from ..cfg import CFG
 from ..report import AnalysisError, borrow, norm
 from ..srcmodel import own_nodes, own_statements
 from ..terms import Resolver, alternatives, canon, show, walk
@@ -138,6 +139,26 @@ def r2_fraction(rep, ctx):
         ok = t is not None and all(pred(a) for a in alternatives(t))
         rep.check(ok, "C18.R2", "Fraction.%s" % name, "%s applies the matching exact operation" % name,
                   "Fraction.%s returns %s, which is not the matching operation on the wrapped exact fraction" % (name, show(t, 160) if t else None), fn=fn)
+    # == accepts plain numbers: a `return False` of Fraction.__eq__ may only be taken for operands that are
+    # neither Fractions nor numbers
+    eqf_ = ci.methods.get("__eq__")
+    if eqf_ is not None:
+        from ..facts import facts as nfacts_
+        ecfg = CFG(eqf_.node)
+        eres = Resolver(m, eqf_)
+        other_t = ("param", 1, eqf_.params[1])
+        for rn in ecfg.returns():
+            rst = ecfg.ast[rn]
+            if not (isinstance(rst.value, ast.Constant) and rst.value.value is False):
+                continue
+            okf = False
+            for k, l_, r_, pos in nfacts_(ecfg, rn):
+                if k == "truth" and not pos and isinstance(l_, ast.Call) and isinstance(l_.func, ast.Name) and l_.func.id == "isinstance" and len(l_.args) == 2 and eres.term(l_.args[0]) == other_t:
+                    tt_ = eres.term(l_.args[1])
+                    names = {x[1] for x in walk(tt_) if x[0] == "name"}
+                    okf = "Fraction" in names and ("NumberType" in names or {"int", "float"} <= names)
+            rep.check(okf, "C18.R2", "Fraction.__eq__:numbers-compare", "Fraction.__eq__ answers False without comparing only for operands that are neither Fractions nor numbers",
+                      "Fraction.__eq__ returns False for an operand class that includes plain numbers (the type guard does not admit int/float): Fraction(1, 2) == 0.5 is False", node=rst, fn=eqf_)
     # normalisation: the scaling loop stops when the numerator is within SMALL of round(numerator),
     # so the conversion to an integer after it must be that same rounding
     init = ci.methods.get("__init__")
@@ -168,7 +189,6 @@ def r2_fraction(rep, ctx):
         rep.check(not bad, "C18.R2", "Fraction.%s:lifts-numbers" % name, "a plain number operand is lifted to a Fraction before its parts are read",
                   "Fraction.%s reads `other.%s` while other may still be a plain number (%s)" % (name, bad[0].need if bad else "", show_state(bad[0].state) if bad else ""), fn=fn)
     # == and < through one helper (term-based: guards may be merged into the returned expression)
-    from ..cfg import CFG
     from ..facts import norm_fact
     eqf, ltf, cmpf = ci.methods.get("__eq__"), ci.methods.get("__lt__"), ci.methods.get("__old_cmp__")
     if eqf is None or ltf is None or cmpf is None:
